@@ -115,6 +115,8 @@ type dict interface {
 	Decode(table string) string
 	Get(table string, keys []string) string
 	DecPut(table string, entries []string) string
+	BuildBare(entries []string) string
+	DecodeBare(table string) string
 	GoRoundtrip(kt string, entries []string) string
 	GoSpec(kt string, table string, entries []string) string
 	GoDecPut(kt string, table string, entries []string) string
@@ -355,6 +357,8 @@ func init() {
 		"hm.putkeys":      func(a []string) string { return dictOf(a).PutKeys(a[2:]) },
 		"hm.build":        func(a []string) string { return dictOf(a).Build(a[2:]) },
 		"hm.decode":       func(a []string) string { return dictOf(a).Decode(a[2]) },
+		"hmb.build":       func(a []string) string { return dictOf(a).BuildBare(a[2:]) },
+		"hmb.decode":      func(a []string) string { return dictOf(a).DecodeBare(a[2]) },
 		"hm.get":          func(a []string) string { return dictOf(a).Get(a[2], a[3:]) },
 		"hm.decput":       func(a []string) string { return dictOf(a).DecPut(a[2], a[3:]) },
 		"hma.decode":      exAugDecode,
@@ -446,6 +450,34 @@ func (r runner[K, V]) Decode(table string) string {
 		return "err"
 	}
 	return "ok " + r.items(d)
+}
+
+// BuildBare / DecodeBare: tlb.Hashmap (without the Maybe ^ wrapper of HashmapE) marshalled into / read from a cell.
+func (r runner[K, V]) BuildBare(entries []string) string {
+	var d tlb.Hashmap[K, V]
+	for _, e := range entries {
+		k, v := splitEntry(e)
+		d.Put(r.kc.parse(k), r.vc.parse(v))
+	}
+	c := boc.NewCell()
+	if err := tlb.Marshal(c, d); err != nil {
+		return "err"
+	}
+	return "ok " + canonTable(c)
+}
+
+func (r runner[K, V]) DecodeBare(table string) string {
+	var d tlb.Hashmap[K, V]
+	if err := tlb.Unmarshal(cellOfTable(table), &d); err != nil {
+		return "err"
+	}
+	items := d.Items()
+	var sb strings.Builder
+	sb.WriteString("ok " + strconv.Itoa(len(items)))
+	for _, it := range items {
+		sb.WriteString(" " + r.kc.show(it.Key) + "=" + r.vc.show(it.Value))
+	}
+	return sb.String()
 }
 
 func (r runner[K, V]) Get(table string, keys []string) string {
@@ -1463,6 +1495,15 @@ func genOneMap(g *h.G) {
 	}
 	table := tableOf(hashmapE(root))
 	g.Emit("hm.decode", kt, vt, table)
+	if g.Rng.Intn(4) == 0 { // the bare Hashmap (no Maybe ^ wrapper): same tree at the root, same entries by Put
+		bare := &node{}
+		if root != nil {
+			bare = root
+		}
+		g.Emit("hmb.decode", kt, vt, tableOf(bare))
+		g.Emit("hmb.build", append([]string{kt, vt}, orders[len(orders)-1]...)...)
+		g.Count("bare_hashmap")
+	}
 	g.Emit("go.hm.spec", append([]string{kt, vt, table}, entries...)...)
 	present := map[string]bool{}
 	for _, k := range keys {
